@@ -44,6 +44,7 @@ class Profile:
         self.bad_version = 0.25
         self.unknown_node = 0.2
         self.restore = 0.3
+        self.p_reconnect = 0.5
         self.__dict__.update(kw)
 
 
@@ -152,6 +153,8 @@ def gen_history(rng, pr: Profile) -> list[tuple]:
             f, buffered = gen_send(rng, pr)
             faults = tuple(rng.random() < 0.5 for _ in range(2)) if rng.random() < pr.p_fault else ()
             ops.append(("send", f, buffered, faults))
+        elif x < pr.p_send + pr.p_manip and rng.random() < pr.p_reconnect:
+            ops.append(("reconnect",))
         elif x < pr.p_send + pr.p_manip:
             n = rng.choice(pr.nodes)
             ops.append((rng.choice(["set_reboot", "set_sleeping"]), n, rng.random() < 0.7))
@@ -186,6 +189,8 @@ def run_history(ops: list[tuple], metric: bool = True) -> Impl:
                 im.set_sleeping(op[1], op[2])
         elif k == "set_version":
             im.set_version(op[1])
+        elif k == "reconnect":
+            im.reconnect()
         else:
             raise AssertionError(op)
     return im
